@@ -272,6 +272,8 @@ namespace pika::transform_mpi_detail {
                             debug(str<>("transform_mpi_recv"), "set_value_t"));
 
                         dispatch<Ts...>(r);
+                        // dispatch has already signalled set_error if the MPI call failed
+                        if (r.op_state.status != MPI_SUCCESS) return;
                         trigger(r);
                     },
                     [&](std::exception_ptr ep) {
